@@ -1,2 +1,13 @@
 -- property theorems
 import Properties.C18
+import Properties.C20
+import Properties.C01
+import Properties.C02
+import Properties.C03
+import Properties.C04
+import Properties.C07
+import Properties.C08
+import Properties.C14
+import Properties.C15
+import Properties.C16
+import Properties.C19
